@@ -790,8 +790,65 @@ def check_route_before_connect(ctx, rng):
                 ctx.event('observation:accepted-signed-interest-not-delivered')
 
 
+def check_plain_after_detach(ctx, rng):
+    """Plain Interests are delivered (without consulting any validator) to the handler in force - also right after a LONGER prefix
+    that used to have its own handler and validator was detached: the Interests under it belong to the shorter prefix again."""
+    from ndn.encoding import make_interest, InterestParam
+    for fe in ('v2', 'v1'):
+        for rep in range(ctx.n(6, 200)):
+            res = {}
+
+            async def main(S):
+                face = RecFace()
+                the_app = appv2.NDNApp(face=face) if fe == 'v2' else appv1.NDNApp(face=face, keychain=KeychainDigest())
+                main_task = asyncio.ensure_future(the_app.main_loop())
+                await asyncio.sleep(0)
+                got, vcalls = [], []
+
+                async def val2(n, s_, c):
+                    vcalls.append(1)
+                    return types.ValidResult.PASS
+
+                async def val1(n, s_):
+                    vcalls.append(1)
+                    return True
+                outer, inner = [C(b'svc')], [C(b'svc'), C(b'admin')]
+                if fe == 'v2':
+                    the_app.attach_handler(outer, lambda n, p, r, c: got.append(('outer', bytes(n[-1]))), val2)
+                    the_app.attach_handler(inner, lambda n, p, r, c: got.append(('inner', bytes(n[-1]))), val2)
+                else:
+                    the_app.set_interest_filter(outer, lambda n, p, a: got.append(('outer', bytes(n[-1]))), val1)
+                    the_app.set_interest_filter(inner, lambda n, p, a: got.append(('inner', bytes(n[-1]))), val1)
+                for nm in (inner + [C(b'1')], outer + [C(b'x')]):
+                    await face.deliver(bytes(make_interest(nm, InterestParam(nonce=1, lifetime=1000))))
+                    for _ in range(3):
+                        await asyncio.sleep(0)
+                (the_app.detach_handler if fe == 'v2' else the_app.unset_interest_filter)(inner)
+                for nm in (inner + [C(b'2')], inner, outer + [C(b'y')]):
+                    await face.deliver(bytes(make_interest(nm, InterestParam(nonce=2, lifetime=1000))))
+                    for _ in range(3):
+                        await asyncio.sleep(0)
+                res['got'], res['vcalls'] = list(got), len(vcalls)
+                the_app.shutdown()
+                await asyncio.wait_for(main_task, 5)
+            S = vtime.run(main)
+            ctx.case(('plain-after-detach', fe, rep % 3), nontrivial=True)
+            ctx.event('plain-interest-after-a-longer-prefix-was-detached')
+            w = {'frontend': fe, 'delivered': res.get('got')}
+            if S.result != 'ok':
+                ctx.report(f'plain-after-detach-scenario-{S.result}:{fe}', f'{S.error!r}', w)
+                continue
+            exp = [('inner', C(b'1')), ('outer', C(b'x')), ('outer', C(b'2')), ('outer', C(b'admin')), ('outer', C(b'y'))]
+            if res.get('got') != exp:
+                ctx.report(f'plain-interest-not-delivered:{fe}:after-detach', f'plain Interests after the detach of a longer prefix were delivered as {res.get("got")}, expected {exp}', w)
+            if res.get('vcalls'):
+                ctx.report(f'plain-interest-validated:{fe}', 'a validator was consulted for a plain Interest', w)
+
+
 def run(ctx):
     ctx.rule = RULE
+    check_plain_after_detach(ctx, ctx.rng)
+    ctx.need_event('plain-interest-after-a-longer-prefix-was-detached')
     rng = ctx.rng
     check_data_side(ctx, rng)
     check_data_multi(ctx, rng)
